@@ -63,15 +63,18 @@ type frameT struct {
 }
 
 type caseT struct {
-	R       uint32   `json:"r"`
-	S       uint32   `json:"send_buf"` // the connection's send buffer (0 = same as R); the receive limit must not depend on it
-	Frames  []frameT `json:"frames"`
-	Trunc   int      `json:"trunc"`     // bytes removed from the end of the stream
-	SegMode string   `json:"seg_mode"`  // informational
-	Cuts    []int    `json:"cuts"`      // segment lengths; the remainder is the last segment
-	PauseN  int      `json:"pause_n"`   // pause after every PauseN-th segment (0 = never)
-	PauseUs int      `json:"pause_us"`  // pause length
-	MaxP    int      `json:"max_pause"` // at most this many pauses
+	R uint32 `json:"r"`
+	S uint32 `json:"send_buf"` // the connection's send buffer (0 = same as R); the receive limit must not depend on it
+	// the connection's message limits: framing depends on the receive buffer only
+	MaxMsg    uint32   `json:"max_message_size,omitempty"`
+	MaxChunks uint32   `json:"max_chunk_count,omitempty"`
+	Frames    []frameT `json:"frames"`
+	Trunc     int      `json:"trunc"`     // bytes removed from the end of the stream
+	SegMode   string   `json:"seg_mode"`  // informational
+	Cuts      []int    `json:"cuts"`      // segment lengths; the remainder is the last segment
+	PauseN    int      `json:"pause_n"`   // pause after every PauseN-th segment (0 = never)
+	PauseUs   int      `json:"pause_us"`  // pause length
+	MaxP      int      `json:"max_pause"` // at most this many pauses
 }
 
 func splitmix(s *uint64) uint64 {
@@ -321,6 +324,17 @@ func genCase(t *rapid.T) caseT {
 	case 3:
 		c.S = uint32(rapid.IntRange(8192, 1<<21).Draw(t, "s"))
 	}
+	switch rapid.IntRange(0, 5).Draw(t, "maxMsgClass") {
+	case 1:
+		c.MaxMsg = 8192
+	case 2:
+		c.MaxMsg = c.R - 1
+	case 3:
+		c.MaxMsg = c.R
+	case 4:
+		c.MaxMsg = 2 << 20
+	}
+	c.MaxChunks = rapid.SampledFrom([]uint32{0, 0, 1, 512}).Draw(t, "maxChunks")
 	n := rapid.IntRange(1, 24).Draw(t, "nframes")
 	term := rapid.IntRange(0, 9).Draw(t, "terminator") // 0-3 none, 4-7 bad frame, 8-9 truncated tail
 	badAt := -1
@@ -466,7 +480,7 @@ func runOnce(c caseT, e expectT, stream []byte) outcome {
 	if sendBuf == 0 {
 		sendBuf = c.R
 	}
-	conn, err := uacp.NewConn(a.c, &uacp.Acknowledge{ReceiveBufSize: c.R, SendBufSize: sendBuf, MaxChunkCount: 0, MaxMessageSize: 0})
+	conn, err := uacp.NewConn(a.c, &uacp.Acknowledge{ReceiveBufSize: c.R, SendBufSize: sendBuf, MaxChunkCount: c.MaxChunks, MaxMessageSize: c.MaxMsg})
 	if err != nil {
 		return outcome{msg: fmt.Sprintf("NewConn: %v", err)}
 	}
@@ -618,6 +632,8 @@ func runOnce(c caseT, e expectT, stream []byte) outcome {
 		if r.err == io.EOF {
 			out.eofClass = "end:io.EOF"
 		} else {
+			// (uasc compares with io.EOF itself; the property does not speak about
+			// the value of the error, so this stays a class)
 			out.eofClass = "end:other-error"
 		}
 	}
